@@ -208,6 +208,15 @@ def oracle_cdf(case, R):
     F = rng.integers(-4, 5, (n, nt)).astype(float)
     d0 = rng.integers(-2, 3, n).astype(float) if case["ic"] else np.zeros(n)
     v0 = rng.integers(-2, 3, n).astype(float) / h if case["ic"] else np.zeros(n)
+    rbpos = list(range(nrb))
+    if case.get("perm") and n > 1:
+        # any mode order: rigid-body equations interleaved with elastic ones (non-contiguous partitions)
+        pm = util.rng_of(case["seed"] + 3).permutation(n)
+        mv, kv, bd, F, d0, v0 = mv[pm], kv[pm], bd[pm], F[pm], d0[pm], v0[pm]
+        Cod = Cod[np.ix_(pm, pm)]
+        Bfull = Bfull[np.ix_(pm, pm)]
+        rbpos = sorted(int(np.nonzero(pm == i)[0][0]) for i in range(nrb))
+        R.label("rb_interleaved" if nrb and rbpos != list(range(nrb)) and rbpos != list(range(n - nrb, n)) else "rb_contiguous")
     M_in = None if case["mform"] == "none" else (mv if case["mform"] == "vec" else np.diag(mv))
     if M_in is None:
         kv = kv / mv
@@ -217,7 +226,7 @@ def oracle_cdf(case, R):
         F = F / mv[:, None]
         mv = np.ones(n)
     cls = ode.SolveCDF if case["cls"] == "SolveCDF" else (lambda *a, **k: ode.SolveUnc(*a, cd_as_force=True, **k))
-    ts = cls(M_in, Bfull, kv, h, rb=list(range(nrb)) if case["rb_given"] else None, order=order)
+    ts = cls(M_in, Bfull, kv, h, rb=rbpos if case["rb_given"] else None, order=order)
     sol = ts.tsolve(F, d0 if case["ic"] else None, v0 if case["ic"] else None)
     R.label(f"order={order}", f"cls={case['cls']}", "cdforces" if ts.cdforces else "plain",
             "rb" if nrb else "norb", "offdiag" if np.any(Cod) else "diagonal")
@@ -259,7 +268,7 @@ def oracle_cdf(case, R):
                 f"order={order} n={n} nt={nt} h={h:.3g} relerr={e:.3e} tol={tol:.3e} cond={cnd:.2e} kap={kap:.2e}")
     if not np.any(Cod):
         su = ode.SolveUnc(M_in, Bfull if case["bmat"] else np.diag(Bfull).copy(), kv, h,
-                          rb=list(range(nrb)) if case["rb_given"] else None, order=order)
+                          rb=rbpos if case["rb_given"] else None, order=order)
         s2 = su.tsolve(F, d0 if case["ic"] else None, v0 if case["ic"] else None)
         R.check(np.array_equal(sol.d, s2.d) and np.array_equal(sol.v, s2.v) and np.array_equal(sol.a, s2.a),
                 "cdf_diagonal_damping_not_identical_to_SolveUnc")
@@ -273,7 +282,7 @@ def cdf_cases(draw):
             "nrb": draw(st.integers(0, 2)), "ratio": draw(st.sampled_from([0.0, 0.0, 0.05, 0.2, 0.5])),
             "ic": draw(st.booleans()), "mform": draw(st.sampled_from(["none", "vec", "mat"])),
             "cls": draw(st.sampled_from(["SolveCDF", "SolveUnc"])), "rb_given": draw(st.booleans()),
-            "bmat": draw(st.booleans())}
+            "bmat": draw(st.booleans()), "perm": draw(st.booleans())}
 
 
 # ---------------------------------------------------------------- convergence and stability
